@@ -52,7 +52,8 @@ def gen_axis(rnd, n, force_units=None):
     t = g * rnd.choice([F(-2), F(0), F(1, 2), F(3)])
     ticks = [t]
     for _ in range(n - 1):
-        t += g * rnd.choice([F(1, 4), F(1, 2), F(1), F(2), F(7, 2)])
+        # repeated ticks (simultaneous events) are ascending too: every sample with the coordinate belongs to the region
+        t += g * rnd.choice([F(0), F(1, 4), F(1, 2), F(1), F(2), F(7, 2)])
         ticks.append(t)
     return {"kind": "range", "ticks": ticks, "dunit": dunit, "tunit": tunit, "s": s, "g": g}
 
@@ -382,7 +383,7 @@ def run(ctx):
         "evaluations": len(cases), "distinct_nontrivial": len(set(repr(to_impl(c)) for c in cases)),
         "rule": "arrays of rank 1-3 (1-5 samples per axis) holding their own offsets, unit-less axes also on a 2^-30 scale (tiny "
                 "positions and extents), every mix of sampled (offsets, fractional "
-                "intervals) / range (irregular ticks) / set descriptors; regions starting on, between, before, after the stored "
+                "intervals) / range (irregular ticks, repeated ticks included) / set descriptors; regions starting on, between, before, after the stored "
                 "samples, with no / zero / on-sample / fractional / far-too-large / negative extents; positions shorter than the "
                 "rank; tags and multi-tags (1-D and 2-D position arrays, the row among others); both stop rules; tag units from "
                 "the same SI family with every prefix pair (factors 1e-9..1e9), no units, wrong units, too few units; "
